@@ -15,10 +15,6 @@ use vcore::report::Report;
 use vcore::run::{guard, panic_sig, Ctx};
 use vcore::sqlite::{Db, SqlVal};
 
-fn lite() -> &'static dyn SchemaBuilder {
-    sb(Dialect::Sqlite)
-}
-
 /// SQLite's five affinity rules applied to a declared type name.
 fn affinity_of_decl(decl: &str) -> Aff {
     let u = decl.to_ascii_uppercase();
@@ -111,6 +107,7 @@ fn spec_sig(c: &Col) -> String {
                 DefVal::Bytes(_) => "bytes",
             }),
             CS::Check(_) => "Check".into(),
+            CS::CheckLt(_) => "Check<".into(),
             CS::Generated(_, st) => format!("Generated({})", if *st { "stored" } else { "virtual" }),
             other => format!("{other:?}"),
         })
@@ -446,6 +443,15 @@ fn behaviour(chk: &Chk, rep: &mut Report, db: &Db, t: &Tbl, sql: &str) -> bool {
                 }
             }
         }
+        if let Some(k) = c.specs.iter().find_map(|s| if let CS::CheckLt(k) = s { Some(*k) } else { None }) {
+            let mut row = base.clone();
+            row[i].1 = k.to_string();
+            rep.count("behaviour_probes", 1);
+            if insert(&row).is_ok() {
+                chk.viol(rep, "R.behaviour", "a value violating the column's second CHECK is accepted".into(), json!({"column": c.name, "check": format!("< {k}"), "sql": sql}));
+                return false;
+            }
+        }
         // affinity by behaviour (columns without constraints that interfere)
         if c.specs.iter().all(|s| matches!(s, CS::Default(_) | CS::Null)) && t.checks.iter().all(|x| x.0 != c.name) && insertable.len() == 1 {
             if let (Some(want), Ok(got)) = (c.ty.sqlite_affinity(), affinity_by_probe(db, &t.name, &c.name)) {
@@ -537,7 +543,12 @@ fn gen_col(rng: &mut Rng, name: &str, ty: Ty, allow_pk: bool, others: &[String])
         pool.push(CS::Unique);
     }
     if rng.chance(1, 5) && ty.sqlite_affinity() != Some(Aff::Blob) {
-        pool.push(CS::Check(rng.range(0, 5)));
+        let k = rng.range(0, 5);
+        pool.push(CS::Check(k));
+        if rng.chance(1, 3) && matches!(ty.sqlite_affinity(), Some(Aff::Integer) | Some(Aff::Real) | Some(Aff::Numeric)) {
+            // a second check() call on the same column: both constraints hold
+            pool.push(CS::CheckLt(k + 100));
+        }
     }
     if rng.chance(1, 8) {
         pool.push(CS::Comment("note".into()));
@@ -669,7 +680,7 @@ fn run_history_inner(ctx: &Ctx, rep: &mut Report, n: u64, rng: &mut Rng, single:
             Some(t) => t.clone(),
             None => gen_table(rng, &format!("tb{ti}"), &model.tables),
         };
-        let sql = match guard(|| t.statement().build_any(lite())) {
+        let sql = match guard(|| crate::ddl::render_table(TableStatement::Create(t.statement()), Dialect::Sqlite)) {
             Ok(s) => s,
             Err(p) => {
                 chk.viol(rep, "R.panic", format!("create table: {}", panic_sig(&p)), json!({"table": format!("{t:?}"), "panic": p}));
@@ -713,9 +724,9 @@ fn run_history_inner(ctx: &Ctx, rep: &mut Report, n: u64, rng: &mut Rng, single:
                     let c = Col { name: cname, ty, specs };
                     let sql = if rng.chance(1, 3) {
                         // SQLite has no ADD COLUMN IF NOT EXISTS: the flag is not rendered
-                        Table::alter().table(target(rng, &tname)).add_column_if_not_exists(c.column_def()).build_any(lite())
+                        crate::ddl::render_schema(Table::alter().table(target(rng, &tname)).add_column_if_not_exists(c.column_def()), Dialect::Sqlite)
                     } else {
-                        Table::alter().table(target(rng, &tname)).add_column(c.column_def()).build_any(lite())
+                        crate::ddl::render_schema(Table::alter().table(target(rng, &tname)).add_column(c.column_def()), Dialect::Sqlite)
                     };
                     model.tables[ti].cols.push(c);
                     ("ALTER TABLE ADD COLUMN", sql)
@@ -730,7 +741,7 @@ fn run_history_inner(ctx: &Ctx, rep: &mut Report, n: u64, rng: &mut Rng, single:
                     let ci = *rng.pick(&cands);
                     let old = t.cols[ci].name.clone();
                     let new = format!("r{}_{}", ci, rng.below(1000));
-                    let sql = Table::alter().table(target(rng, &tname)).rename_column(Alias::new(&old), Alias::new(&new)).build_any(lite());
+                    let sql = crate::ddl::render_schema(Table::alter().table(target(rng, &tname)).rename_column(Alias::new(&old), Alias::new(&new)), Dialect::Sqlite);
                     let t = &mut model.tables[ti];
                     t.cols[ci].name = new.clone();
                     for ix in t.indexes.iter_mut() {
@@ -792,7 +803,7 @@ fn run_history_inner(ctx: &Ctx, rep: &mut Report, n: u64, rng: &mut Rng, single:
                     let cands: Vec<usize> = (0..t.cols.len())
                         .filter(|i| {
                             let c = &t.cols[*i];
-                            !c.has(|s| matches!(s, CS::PrimaryKey | CS::Unique | CS::Check(_))) && !referenced(&c.name)
+                            !c.has(|s| matches!(s, CS::PrimaryKey | CS::Unique | CS::Check(_) | CS::CheckLt(_))) && !referenced(&c.name)
                         })
                         .collect();
                     if cands.is_empty() || t.cols.len() < 2 {
@@ -800,7 +811,7 @@ fn run_history_inner(ctx: &Ctx, rep: &mut Report, n: u64, rng: &mut Rng, single:
                     }
                     let ci = *rng.pick(&cands);
                     let name = t.cols[ci].name.clone();
-                    let sql = Table::alter().table(target(rng, &tname)).drop_column(Alias::new(&name)).build_any(lite());
+                    let sql = crate::ddl::render_schema(Table::alter().table(target(rng, &tname)).drop_column(Alias::new(&name)), Dialect::Sqlite);
                     model.tables[ti].cols.remove(ci);
                     ("ALTER TABLE DROP COLUMN", sql)
                 }
@@ -822,7 +833,7 @@ fn run_history_inner(ctx: &Ctx, rep: &mut Report, n: u64, rng: &mut Rng, single:
                     let odd = if rng.chance(1, 5) { *rng.pick(&["\"", " x", "'", "\"\"", "é", ".v2", "."]) } else { "" };
                     let ix = Ix { name: Some(format!("ix{}{odd}", model.indexes.len() + rng.below(1000) * 10)), unique: rng.chance(1, 3), primary: false, cols: cols.clone(), index_type: None, // INCLUDE / NULLS NOT DISTINCT are Postgres notions: SQLite's renderer leaves them out
                         include: if rng.chance(1, 6) { vec![names[0].clone()] } else { vec![] }, nulls_not_distinct: rng.chance(1, 8), if_not_exists: rng.coin(), filter: filter.clone(), filter_more: filter_more.clone() };
-                    let sql = ix.statement(Some(&tname)).build_any(lite());
+                    let sql = crate::ddl::render_schema(&ix.statement(Some(&tname)), Dialect::Sqlite);
                     model.indexes.push(MIndex { name: ix.name.clone().unwrap(), table: tname.clone(), unique: ix.unique, cols: cols.iter().map(|c| (c.0.clone(), c.1 == Some(true))).collect(), filter, filter_more });
                     ("CREATE INDEX", sql)
                 }
@@ -837,7 +848,7 @@ fn run_history_inner(ctx: &Ctx, rep: &mut Report, n: u64, rng: &mut Rng, single:
                     if rng.coin() {
                         d.if_exists();
                     }
-                    ("DROP INDEX", d.build_any(lite()))
+                    ("DROP INDEX", crate::ddl::render_schema(&d, Dialect::Sqlite))
                 }
                 _ => {
                     if rng.coin() {
@@ -846,7 +857,7 @@ fn run_history_inner(ctx: &Ctx, rep: &mut Report, n: u64, rng: &mut Rng, single:
                             continue;
                         }
                         let new = format!("{tname}x");
-                        let sql = Table::rename().table(target(rng, &tname), Alias::new(&new)).build_any(lite());
+                        let sql = crate::ddl::render_schema(Table::rename().table(target(rng, &tname), Alias::new(&new)), Dialect::Sqlite);
                         model.tables[ti].name = new.clone();
                         for ix in model.indexes.iter_mut().filter(|i| i.table == tname) {
                             ix.table = new.clone();
@@ -860,7 +871,7 @@ fn run_history_inner(ctx: &Ctx, rep: &mut Report, n: u64, rng: &mut Rng, single:
                             // IF EXISTS on a table that is not there: must be accepted and change nothing
                             let mut d = Table::drop();
                             d.table(Alias::new(format!("{tname}_gone"))).if_exists();
-                            let sql = d.build_any(lite());
+                            let sql = crate::ddl::render_schema(&d, Dialect::Sqlite);
                             sig_parts.push(sql.clone());
                             if !exec_and_check(&chk, rep, &db, &model, &sql, "DROP TABLE IF EXISTS (absent)") {
                                 return;
@@ -873,7 +884,7 @@ fn run_history_inner(ctx: &Ctx, rep: &mut Report, n: u64, rng: &mut Rng, single:
                         }
                         model.tables.remove(ti);
                         model.indexes.retain(|i| i.table != tname);
-                        ("DROP TABLE", d.build_any(lite()))
+                        ("DROP TABLE", crate::ddl::render_schema(&d, Dialect::Sqlite))
                     }
                 }
             };
@@ -963,6 +974,7 @@ pub fn check(ctx: &Ctx, rep: &mut Report) {
         if !ctx.wants(n) {
             continue;
         }
+        crate::apply::set_route_seed(ctx.seed ^ n.wrapping_mul(0x9E3779B97F4A7C15));
         let mut rng = ctx.rng("hist", k);
         run_history(ctx, rep, n, &mut rng, None);
     }
